@@ -28,7 +28,7 @@ COMPONENTS = {"real": ["reb_simulation_copy, reb_simulation_diff, reb_binary_dif
 ASSUMPTIONS = ["callbacks are re-attached to the copy before equality is asserted (the function-pointer flag is persisted)",
                "a mutation counts only if it is sticky (the serialiser recomputes some caches); array-sizing fields are only mutated downwards"]
 PROBES = ["with_variational", "with_megno", "unsynchronized_state", "with_tree", "with_display_settings", "mutations_sticky", "mutations_not_sticky",
-          "walltime_mutations_ignored", "pointer_mutations_ignored", "freed_copy_then_stepped_source", "tree_of_copy_checked"]
+          "walltime_mutations_ignored", "pointer_mutations_ignored", "freed_copy_then_stepped_source", "tree_of_copy_checked", "live_arrays_compared", "copy_on_differently_filled_heap", "compact_system_merged_before_copy"]
 
 # dtype codes of reb_binary_field_descriptor
 DT = dict(DOUBLE=0, INT=1, UINT=2, UINT32=3, INT64=4, UINT64=5, VEC3D=7, PARTICLE=8, POINTER=9, POINTER_ALIGNED=10, DP7=11, OTHER=12, END=13, PARTICLE4=15, POINTER_FIXED=16)
@@ -37,7 +37,10 @@ SIZING = {"N", "N_var", "N_var_config"}
 
 def generate(rng, tier, index):
     c = rng.derive("cfg")
-    if c.chance(0.15):
+    compact = rng.derive("compact").chance(0.06)
+    if compact:
+        cfg = simgen.gen_compact_config(c)
+    elif c.chance(0.15):
         cfg = simgen.gen_box_config(c, nmax=30, allow_shear=True)
     else:
         integ = simgen.INTEGRATORS_ALL[index % 11] if index < 33 else c.choice(simgen.INTEGRATORS_ALL)
@@ -62,8 +65,14 @@ def generate(rng, tier, index):
         else:
             warm.append(dict(op=k))
     s = rng.derive("script")
+    if compact:
+        # long enough for a merger before the copy and for rejected steps / encounters after it
+        warm = [dict(op="steps", n=o.randint(100, 400))]
+        return dict(config=cfg, ops=warm, nB=s.randint(1, 12), nA=s.randint(200, 700), jump_us=3600 * 10**6, clock_step=s.choice([0, 1000]), transport=s.choice(["pickle", "bytes", "file"]),
+                    msel=s.u64() % 10**9, fill=rng.derive("fill").choice([0x00, 0x00, 0xFF, 0x5A]))
     return dict(config=cfg, ops=warm, nB=s.randint(1, 12), nA=s.randint(0, 5), jump_us=s.choice([3600 * 10**6, -3600 * 10**6, 10**12]),
-                clock_step=s.choice([0, 1, 1000, 10**6]), transport=s.choice(["pickle", "bytes", "file"]), msel=s.u64() % 10**9)
+                clock_step=s.choice([0, 1, 1000, 10**6]), transport=s.choice(["pickle", "bytes", "file"]), msel=s.u64() % 10**9,
+                fill=rng.derive("fill").choice([0xCB, 0x00, 0x00, 0xFF, 0x5A]))
 
 
 def execute(case, ctx):
@@ -104,6 +113,8 @@ def execute(case, ctx):
         with rb.quiet():
             A.update_tree()     # flush deferred removals (merges flag their victim until the next tree update; a restore drops flagged particles)
     feats = []
+    if cfg.get("compact") and A.N < len(cfg["particles"]):
+        probe("compact_system_merged_before_copy"); feats.append("merged")
     if A.N_var:
         probe("with_variational"); feats.append("var")
     if cfg.get("megno"):
@@ -152,6 +163,15 @@ def execute(case, ctx):
         if sd:
             viol("equal", "compare reports equal although persisted content differs (%s)" % what, "fields %s" % rb.describe_fields(sd), key="equal:missed:" + ",".join(str(x) for x in sd[:2]))
             return False
+        # the same through the simulations' own memory (the serialiser is shared by copy, compare and the S view: what it drops none of them sees)
+        aX, aY = rb.A(X, drop=(126, 127)), rb.A(Y, drop=(126, 127))
+        if uses_tree:
+            aX.pop(rb.F_PARTICLES, None); aY.pop(rb.F_PARTICLES, None)
+        ad = rb.S_diff(aX, aY)
+        if ad:
+            viol("equal", "compare reports equal although array content differs in memory (%s)" % what, "fields %s" % rb.describe_fields(ad), key="equal:missed-live:" + ",".join(str(x) for x in ad[:2]))
+            return False
+        probe("live_arrays_compared")
         return True
 
     # ---- 1. copy equals source ---------------------------------------------------------------
@@ -207,13 +227,17 @@ def execute(case, ctx):
     ctx.op(103)
     try:
         with rb.quiet():
+            rb.alloc_fill(case.get("fill", 0xCB))      # the copy's fresh heap memory holds other garbage than the source's
             D = A.copy()
             simgen.attach_callbacks(rebound, rb, D, cfg)
             rb.clock_set(step_us=case.get("clock_step", 0) * 7 + 3)
             D.steps(case["nA"] + 1)
+            rb.alloc_fill(0xCB)
             rb.clock_jump(-case["jump_us"])
             rb.clock_set(step_us=case.get("clock_step", 0))
             A.steps(case["nA"] + 1)
+            if case.get("fill", 0xCB) != 0xCB:
+                probe("copy_on_differently_filled_heap")
     except (rebound.Escape, rebound.NoParticles, rebound.Encounter, rebound.Collision, rebound.GenericError, RuntimeError):
         return result()
     if not (uses_tree and cfg.get("collision", "none") != "none"):
